@@ -8,8 +8,8 @@ from harness.core import gz, gnat, gbool, gstr, glist
 from harness.props import pbdag
 
 HEADER = """From Coq Require Import ZArith List Bool String.
-From FrameModel Require Import PB.Expr PB.Cnf PB.Amo PB.Robdd PB.Codify PB.Sat PB.Dag PB.DagPost Cases.CmpC07
-  Cases.CmpC07Dag.
+From FrameModel Require Import PB.Expr PB.Cnf PB.Amo PB.Robdd PB.Codify PB.Sat PB.SatBool PB.Dag PB.DagPost
+  Cases.CmpC07Set Cases.CmpC07 Cases.CmpC07Dag.
 Import ListNotations."""
 
 ASSUMPTIONS = [
@@ -84,10 +84,31 @@ def gen_post(rng, names):
     return gen_ineq(rng, names)
 
 
+def gen_cofactor_pair(rng, names):
+    """An inequality and, later, one of its cofactors by its heaviest literal (the diagram of the second is an inner
+    node of the diagram of the first; the second is not implied by the first)."""
+    n = min(len(names), rng.choice([3, 4, 4, 5, 6]))
+    vs = rng.sample(names, n)
+    cs = sorted([rng.choice([1, 1, 2, 2, 3, 4, 5]) for _ in vs], reverse=True)
+    lt = [[v, rng.random() < 0.7, c] for v, c in zip(vs, cs)]
+    rest = sum(cs[1:])
+    b = rng.randint(2, max(2, rest))
+    dec = rng.random() < 0.3
+    first = {"k": "ineq", "lt": lt, "rt": [], "b": b, "op": "GE", "decomp": dec, "via": rng.choice(["ctor", "operator"])}
+    b2 = b if rng.random() < 0.6 else b - cs[0]
+    second = {"k": "ineq", "lt": lt[1:], "rt": [], "b": b2, "op": "GE", "decomp": dec, "via": "ctor"}
+    return first, second
+
+
 def gen_case(rng):
     nv = rng.choice([2, 3, 3, 4, 4, 5, 5, 6, 6, 7, 8, 10])
     names = NAMES[:nv]
     posts = [gen_post(rng, names) for _ in range(rng.choice([1, 1, 1, 2, 2, 2, 3, 3, 4, 5, 6]))]
+    if nv >= 3 and rng.random() < 0.2:
+        first, second = gen_cofactor_pair(rng, names)
+        i = rng.randrange(len(posts) + 1)
+        posts.insert(i, first)
+        posts.insert(rng.randint(i + 1, len(posts)), second)
     hist = []
     for _ in range(rng.choice([0, 1, 2, 3, 4, 6])):
         if posts and rng.random() < 0.35:
@@ -177,10 +198,17 @@ def do_post(sm, p):
         else:
             raise ValueError(k)
     except Exception as e:
-        if type(e) is Exception and str(e) in ("Not implemented yet.", "k must be at least 3"):
+        if is_refusal(e):
             return "R", extra
         raise
     return "A", extra
+
+
+def is_refusal(e):
+    """A posting call that raises refuses the constraint (the property fixes neither the class nor the wording of the
+    error).  The exceptions Python itself raises for a programming error are not taken for a refusal."""
+    return isinstance(e, Exception) and not isinstance(e, (TypeError, LookupError, AttributeError, NameError,
+                                                            AssertionError, RecursionError, ArithmeticError))
 
 
 def mgr_state(sm):
@@ -308,6 +336,19 @@ def gpost(p, norm):
     raise ValueError(k)
 
 
+def gsem(obs, names):
+    """The observed extendability of user assignments, for the semantic part of the comparison."""
+    ext = obs.get("extendable")
+    if ext is None or "users" not in obs:
+        return "SemNone"
+    users = glist([gstr(n) for n in names])
+    rows = [(sum(1 << j for j, b in enumerate(bits) if b), bool(e)) for bits, e in ext]
+    n = len(names)
+    if n <= MAXENUM and sorted(m for m, _ in rows) == list(range(1 << n)):
+        return f"(SemFull {users} {sum(1 << m for m, e in rows if e)}%N)"
+    return f"(SemTable {users} {glist([f'({m}%N, {gbool(e)})' for m, e in rows])})"
+
+
 def to_coq(case, obs):
     if is_dag(case):
         return dag_to_coq(case, obs)
@@ -317,7 +358,7 @@ def to_coq(case, obs):
          f"{glist([glist([glit(l) for l in c]) for c in obs['clauses']])} {gnat(obs['aux'])} "
          f"{glist([gnat(i) for i in obs['codified']])} {glist([gvar(v) for v in obs['vtable']])} "
          f"{glist(['Accepted' if s == 'A' else 'Refused' for s in obs['status']])})")
-    return f"c07_check {mem0} {posts} {o}"
+    return f"c07_check {mem0} {posts} {o} {gsem(obs, [PRE + v for v in obs.get('users', [])])}"
 
 
 
@@ -571,7 +612,7 @@ def run_dag(case):
                 else:
                     sm.pseudoboolencoding(env[s[1]], s[2])
             except Exception as e:
-                if type(e) is Exception and str(e) in ("Not implemented yet.", "k must be at least 3"):
+                if is_refusal(e):
                     st = "R"
                 else:
                     raise
@@ -636,7 +677,7 @@ def dag_to_coq(case, obs):
          f"{glist([gnat(i) for i in obs['codified']])} {glist([gvar(v) for v in obs['vtable']])} "
          f"{glist(['Accepted' if s == 'A' else 'Refused' for s in obs['status']])})")
     vals = pbdag.gobs(obs["snaps"], obs["kinds"], skip=pbdag.consumed(steps))
-    chk = f"c07_dag_check {mem0} {glist([gstep(s) for s in steps])} {vals} {o}"
+    chk = f"c07_dag_check {mem0} {glist([gstep(s) for s in steps])} {vals} {o} {gsem(obs, obs['users'])}"
     for c in pbdag.zero_consts(obs["snaps"], obs["kinds"]):
         if c != 0:
             chk += f" && Z.eqb {gz(c)} 0%Z"
@@ -950,7 +991,9 @@ def run(ctx, out, replay=None):
                 "pairwise and chained with k 3..6 (and refused k), inequalities with up to 8+2 literals, coefficients "
                 "-9..9 incl. 0, repeated variables, both polarities, six operator spellings, both constructions) over "
                 "2..10 user variables, posted to a fresh manager after 0-6 earlier encodings by another manager of the "
-                "same process; every user assignment is checked for extendability with PySAT; non-trivial = an "
+                "same process; a fifth of the sequences also post an inequality and later one of its cofactors (whose "
+                "diagram is an inner node of the first one's); every user assignment is checked for extendability with "
+                "PySAT; non-trivial = an "
                 "inequality with >= 2 literals or a chained group longer than k; distinct by hash. "
                 "Every third case is a HISTORY over shared objects (PB/DagPost.v): the variables are registered with "
                 "newvar (the returned Literal objects are kept), then 8..40 steps interleave bindings of the expression "
